@@ -29,8 +29,8 @@ ASSUMPTIONS = ["names are resolved relative to the array directory; symlink alia
 EXHAUSTIVE = "method x protected target x spelling x flag matrix for Array and RaggedArray"
 METHODS = ['write_txt', 'write_jsonfile', 'write_jsondict', 'update_jsondict', 'delete_files'] + \
           ['open_file:' + m for m in ['w', 'a', 'x', 'r+', 'rb+', 'r+b', 'wb', 'ab', 'w+', 'a+', 'xb']]
-SPELLINGS = ['str', 'Path', './', './/', 'detour', 'detour-values', 'dupsep', 'abs', 'absPath', 'slash', 'dot-mid']
-MUST_HIT = ['path-recreated-as-other-kind', 'kind:Array', 'kind:Ragged', 'spell:Path', 'spell:./', 'spell:detour', 'target:subdir-file', 'target:dirname', 'target:absent',
+SPELLINGS = ['str', 'Path', './', './/', 'detour', 'detour-values', 'dupsep', 'abs', 'absPath', 'slash', 'dot-mid', 'updown', 'updown2']
+MUST_HIT = ['handle-opened-by-relative-path', 'spell:updown', 'path-recreated-as-other-kind', 'kind:Array', 'kind:Ragged', 'spell:Path', 'spell:./', 'spell:detour', 'target:subdir-file', 'target:dirname', 'target:absent',
             'target:new-in-subdir', 'user:json', 'user:txt', 'user:overwrite-refused', 'user:delete', 'mixed-delete', 'read-protected-ok'] + \
            ['m:' + m for m in METHODS]
 
@@ -66,6 +66,11 @@ def spell(name, how, base):
         return name + '/'
     if how == 'dot-mid':
         return name.replace('/', '/./') if '/' in name else './././' + name
+    if how in ('updown', 'updown2'):
+        # up out of the array directory (and of the directory that holds it) and back down again by name; stays inside the scratch tree
+        parts = os.path.abspath(base).split(os.sep)
+        k = 2 if how == 'updown' else 3
+        return '/'.join(['..'] * k + parts[-k:] + [name])
     raise ValueError(how)
 
 
@@ -91,6 +96,8 @@ def call_method(dd, method, name, flag):
 
 def make(kind, d):
     import darr
+    d = os.path.join(d, 'outer', 'work')        # some depth, so that '..' detours stay inside the scratch directory
+    os.makedirs(d, exist_ok=True)
     p = os.path.join(d, 'x.darr')
     if kind == 'Array':
         a = darr.asarray(p, np.arange(8, dtype='int32'), accessmode='r+')
@@ -113,6 +120,14 @@ def execute(ctx, spec):
 
 
 def _exec_prot(ctx, spec, out):
+    oldcwd = os.getcwd()
+    try:
+        return _exec_prot_inner(ctx, spec, out)
+    finally:
+        os.chdir(oldcwd)      # (relative-path handles are used with the working directory their path starts from)
+
+
+def _exec_prot_inner(ctx, spec, out):
     kind, method, (tname, tkind), how, flag = spec['kind'], spec['m'], spec['t'], spec['s'], spec['flag']
     out.cls('kind:' + kind, 'm:' + method, 'spell:' + how)
     out.cls({'file': 'target:file', 'absent': 'target:absent', 'dir': 'target:dirname', 'subfile': 'target:subdir-file',
@@ -124,6 +139,13 @@ def _exec_prot(ctx, spec, out):
             return out           # 'file/' is not a spelling of a file
         name = spell(tname, how, p)
         out.nontrivial = how != 'str'
+        if spec.get('openvia') == 'rel':
+            # the handle is made from a RELATIVE path, with the working directory where that path starts
+            import darr
+            out.cls('handle-opened-by-relative-path')
+            os.chdir(os.path.dirname(p))
+            rel = os.path.basename(p) if spec.get('flag') else pathlib.Path(os.path.basename(p))
+            a = darr.Array(rel, accessmode='r+') if kind == 'Array' else darr.RaggedArray(rel, accessmode='r+')
         before = snapshot(p)
         tag = f'{kind}:{method}:{tkind}:{how}'
         try:
@@ -414,6 +436,8 @@ def matrix():
             flags = (False, True) if method.startswith('write') else (False,)
             for flag in flags:
                 yield {'f': 'prot', 'kind': kind, 'm': method, 't': list(t), 's': how, 'flag': flag}
+                if how in ('str', './', 'detour', 'updown', 'updown2', 'abs', 'dot-mid'):
+                    yield {'f': 'prot', 'kind': kind, 'm': method, 't': list(t), 's': how, 'flag': flag, 'openvia': 'rel'}
         for t, _ in targets(kind)[:3]:
             for how in ('str', 'Path', './', 'detour'):
                 for pos in ('first', 'last', 'middle'):
